@@ -564,6 +564,9 @@ class J1939_22:
             if buffer_hash not in self._snd_buffer:
                 self.__send_tp_abort(dest_address, src_address, session_num, self.ConnectionAbortReason.RESOURCES, pgn)
                 return
+            if self._snd_buffer[buffer_hash]['dest_address'] == ParameterGroupNumber.Address.GLOBAL:
+                # a broadcast session is not flow controlled (frame with the global address as source address)
+                return
             if num_segments == 0:
                 # SAE J1939/22
                 # receiver requests a pause
@@ -608,6 +611,9 @@ class J1939_22:
             buffer_hash   = self._buffer_hash(session_num, dest_address, src_address)
             if buffer_hash not in self._snd_buffer:
                 self.__send_tp_abort(dest_address, src_address, session_num, self.ConnectionAbortReason.RESOURCES, pgn)
+                return
+            if self._snd_buffer[buffer_hash]['dest_address'] == ParameterGroupNumber.Address.GLOBAL:
+                # a broadcast session is not acknowledged (frame with the global address as source address)
                 return
             # TODO: should we inform the application about the successful transmission?
             # Notify subscribers here to be used for the memory access server to know when to send operation complete
